@@ -19,14 +19,16 @@ RULE = ('generated modules with 1..4 persistent parameters over random datatypes
         'save (open, each write, close, rename, remove) is failed once as a process crash (with partial write) and once '
         'as an I/O error (exhaustive per save); then restart from the directory; plus round trip, configuration '
         'precedence and a corruption catalogue (truncation at every byte, bit flips, other JSON kinds, wrong-typed / '
-        'out-of-range / partial entries, unknown keys). distinct = (datatype shapes, fault mode, operation kind and index) '
+        'out-of-range / partial entries, unknown keys); plus run-time histories of {assign, save, damage the file behind the '
+        'module\'s back (remove, truncate, empty, other JSON, garbage), reload (loadParameters), restart}. distinct = (datatype shapes, fault mode, operation kind and index) '
         'or (corruption kind, datatype kind); non-trivial = every injected fault and every corruption')
 ASSUMPTIONS = ['process-crash model: operations that returned are on disk; power loss / missing fsync is not judged',
                'the injector shadows open/os as seen from frappy.persistent; pathlib calls are not intercepted '
                '(a save that bypasses open/os.rename shows up as zero injected faults -> inconclusive)',
                'leftover temporary files are allowed; only the target file is judged']
 REQUIRED = ['saves_enumerated', 'faults_injected_crash', 'faults_injected_error', 'oracle_disk_old_or_new',
-            'oracle_retry', 'oracle_restart', 'oracle_roundtrip', 'oracle_cfg_precedence', 'corruptions', 'oracle_corrupt_entry']
+            'oracle_retry', 'oracle_restart', 'oracle_roundtrip', 'oracle_cfg_precedence', 'corruptions', 'oracle_corrupt_entry',
+            'histories', 'history_saves_checked', 'history_damages', 'history_reloads', 'history_restarts_checked']
 
 N = {'quick': 7, 'thorough': 300}
 
@@ -191,6 +193,102 @@ class World:
             if new == snap1:
                 continue
             self.enumerate_faults(cls, specs, d0, snap1, new, name, gen_dt.to_py(s['spec'], w2), case_base)
+
+    # ---------------------------------------------------------------- run-time histories
+    DAMAGES = ['remove', 'truncate', 'empty', 'other-json', 'garbage']
+
+    def run_history(self, specs, case_base):
+        """histories of {set, save, damage the file, reload (loadParameters), restart} on one directory.
+
+        model: what the module can know about the disk.  after a save that returns normally the file must hold the current
+        values whenever the module knows what is on disk: (a) it wrote or read the file itself and nobody touched it
+        since, or (b) the file was damaged behind its back but it has re-read it (loadParameters) afterwards.  a restart
+        after such a save restores exactly these values."""
+        r, rng = self.r, self.rng
+        cls = self.make_class(specs)
+        d = os.path.join(self.root, 'hist')
+        shutil.rmtree(d, ignore_errors=True)
+        os.makedirs(d)
+        self.inj.reset()
+        try:
+            m = self.mk(cls, d)
+            m.writeInitParams()
+        except Exception as e:
+            r.violation('C17/startup-fails/fresh-directory', f'{type(e).__name__}: {e}'[:200], case_base)
+            return
+        knows_disk = True          # the module's picture of the disk is right
+        ops = []
+        case = dict(case_base, sub='history', ops=ops)
+        for step in range(rng.randint(4, 12)):
+            op = rng.choice(['set', 'set', 'save', 'save', 'damage', 'reload', 'restart'])
+            try:
+                if op == 'set':
+                    i = rng.randrange(len(specs))
+                    w = gen_dt.complete(specs[i]['spec'], gen_dt.gen_valid(specs[i]['spec'], rng, True), rng)
+                    ops.append(['set', f'p{i}', w])
+                    prev = self.snapshot(m).get(f'p{i}')
+                    setattr(m, f'p{i}', gen_dt.to_py(specs[i]['spec'], w))
+                    # parameters saved automatically are written when the assignment changes them
+                    if specs[i]['auto'] and knows_disk and not m.writeDict and self.snapshot(m).get(f'p{i}') != prev:
+                        r.count('history_autosaves_checked')
+                        if self.disk(d) != self.snapshot(m):
+                            r.violation('C17/history/autosave-missing', f'after assigning the auto-saved parameter p{i} the file differs from the current values',
+                                        dict(case, disk=self.disk(d), expected=self.snapshot(m)))
+                            return
+                elif op == 'save':
+                    ops.append(['save'])
+                    m.saveParameters()
+                    if m.writeDict:
+                        continue          # documented: nothing is saved before all values were written to the hardware
+                    if knows_disk:
+                        r.count('history_saves_checked')
+                        if self.disk(d) != self.snapshot(m):
+                            r.violation('C17/history/save-does-not-leave-current-values-on-disk',
+                                        f'saveParameters() returned but the file holds {str(self.disk(d))[:80]} instead of the current values',
+                                        dict(case, disk=self.disk(d), expected=self.snapshot(m)))
+                            return
+                elif op == 'damage':
+                    kind = rng.choice(self.DAMAGES)
+                    ops.append(['damage', kind])
+                    t = self.target(d)
+                    if kind == 'remove':
+                        if t.exists():
+                            t.unlink()
+                    elif t.exists() or kind != 'truncate':
+                        t.parent.mkdir(parents=True, exist_ok=True)
+                        if kind == 'truncate':
+                            raw = t.read_bytes()
+                            t.write_bytes(raw[:max(1, len(raw) // 2)])
+                        elif kind == 'empty':
+                            t.write_bytes(b'')
+                        elif kind == 'other-json':
+                            t.write_text(rng.choice(['[1, 2]', '"text"', 'null', '{"unrelated": 1}']))
+                        else:
+                            t.write_bytes(bytes(rng.randrange(256) for _ in range(20)))
+                    knows_disk = False
+                    r.count('history_damages')
+                elif op == 'reload':
+                    ops.append(['reload'])
+                    m.loadParameters()        # "may be called from a module when a hardware power down is detected"
+                    knows_disk = True
+                    r.count('history_reloads')
+                else:
+                    ops.append(['restart'])
+                    before = self.snapshot(m) if knows_disk and self.disk(d) == self.snapshot(m) else None
+                    m = self.mk(cls, d)
+                    m.writeInitParams()
+                    knows_disk = True
+                    if before is not None:
+                        r.count('history_restarts_checked')
+                        bad = self.values_equal(m, before, specs)
+                        if bad:
+                            r.violation('C17/history/restart-differs-from-saved-values', f'{bad[0]}: {bad[1]}'[:200], dict(case, expected=before))
+                            return
+            except Exception as e:
+                r.violation(f'C17/history/raises/{op}', f'{type(e).__name__}: {e}'[:200], case)
+                return
+        r.count('histories')
+        r.case(('history', tuple(o[0] if o[0] != 'damage' else o[0] + ':' + o[1] for o in ops)), any(o[0] == 'damage' for o in ops))
 
     def snapshot_one(self, spec, w):
         """exported form of a valid wire value (the canonical JSON: floats for doubles)"""
@@ -400,6 +498,8 @@ def run_shard(shard):
             base = {'specs': specs, 'seed': [shard['seed'], shard['idx'], i]}
             w.run_module(specs, base)
             w.run_corruptions(specs, base)
+            for _ in range(6):
+                w.run_history(specs, base)
     finally:
         w.close()
     return r.result()
